@@ -114,7 +114,7 @@ func predMeta(m MetaCase, o *evid.Obs) error {
 		o.Discard("invalid-db")
 		return nil
 	}
-	if c.StepMs <= 0 || c.Q.RangeNs() <= 0 || 86400e9%c.Q.RangeNs() != 0 {
+	if c.StepMs <= 0 || c.Q.RangeNs() <= 0 {
 		o.Discard("shape-outside-domain")
 		return nil
 	}
@@ -128,10 +128,6 @@ func predMeta(m MetaCase, o *evid.Obs) error {
 			o.Discard("dontcare:" + d)
 			return nil
 		}
-	}
-	if c07.InLikeEscapeRegion(c.Q.Stages) && !o.Witness {
-		o.Discard("excluded:like-escaping(C10)")
-		return nil
 	}
 	o.Tag("meta:" + m.Kind)
 	TagMetric(o, &c)
